@@ -112,6 +112,7 @@ Definition pred (which : nat) (arg : Z) : bool :=
   | 7%nat => let cl := arg mod 100 in
              m_sqlx ((arg / 100) mod 10) (if cl =? 9 then 99 else if cl =? 8 then 98 else cl)
   | 8%nat => m_redis (arg mod 100)
+  | 10%nat => arg <? http_threshold        (* api/httpc service.go:66-68: err == nil && StatusCode < 500; 1000 = transport error *)
   | _ => rpc_mark arg
   end.
 
@@ -130,7 +131,7 @@ Definition h_shape (class : nat) (code : Z) : shape :=
   match class with 0%nat => SHeader code | 1%nat => SWrite | 2%nat => SNothing | _ => SPanic end.
 Definition h_mark (class : nat) (code : Z) : bool := http_mark true (h_shape class code).
 Definition is_http (side : nat) : bool := Nat.eqb side 3 || Nat.eqb side 4.
-Definition is_chain (side : nat) : bool := Nat.eqb side 5.     (* the composed client chain of rpc/internal/client.go *)
+Definition is_chain (side : nat) : bool := Nat.eqb side 5 || Nat.eqb side 6.   (* 6: a started rpc/internal Server (Start's chain + added timeout interceptor) *)     (* the composed client chain of rpc/internal/client.go *)
 
 (* frozen clock, one breaker PER NAME: (accepts, total) only grow; a call may be cut off only when the excess of ITS
    name is positive (the coin is not scripted here: both answers are allowed then), and is let in and marked otherwise *)
@@ -265,6 +266,7 @@ Definition benign (which : nat) (arg : Z) : bool :=
   | 3%nat => arg <? 500                                        (* HTTP status below 500 *)
   | 7%nat => existsb (Z.eqb (arg mod 100)) [0; 1; 2; 3]       (* sqlx call sites: same classes *)
   | 8%nat => existsb (Z.eqb (arg mod 100)) [0; 3; 4]          (* redis call sites *)
+  | 10%nat => arg <? 500                                       (* HTTP client: status below 500 *)
   | _ => (arg / 100 =? 0) && negb (existsb (Z.eqb (arg mod 100)) [4; 13; 14; 15; 12])   (* returned, benign code *)
   end.
 
